@@ -193,6 +193,14 @@ def coqchk(prop, timeout=1500):
     cmd = ["timeout", str(timeout), "coqchk", "-silent", "-o", "-Q", os.path.join(COQ, "theories"), "CV",
            f"CV.Properties.{prop}"]
     with CoqLock():
+        # the generated files are shared by every run in this directory: bring them (and the compiled files) back in
+        # line with THIS run's source tree before the re-check, under the same lock (another run, e.g. tools/try_seed.sh
+        # against a changed tree, may have regenerated or removed them since this run's proof step)
+        okt, msg = regen_tables()
+        okm, mout, _ = make(f"theories/Properties/{prop}.vo") if okt else (False, msg, "")
+        if not okm:
+            return dict(ok=False, returncode=2, axioms="?", summary="the development no longer builds at coqchk time: "
+                        + " ".join(mout.split())[-600:], cmd=" ".join(cmd))
         p = subprocess.run(cmd, capture_output=True, text=True, cwd=COQ)
     out = p.stdout + p.stderr
     summary = out[out.find("CONTEXT SUMMARY"):] if "CONTEXT SUMMARY" in out else out[-1500:]
